@@ -237,6 +237,16 @@ fn judge_svd3(case: &Case, l: &mut Local) {
         }
         l.check("basis vectors are orthonormal", "", orth <= 1e-10, mk, || format!("w {:?}: deviation {:e}", w, orth));
         l.check("singular values are non-increasing", "", b.sv[0] >= b.sv[1] - 1e-12 && b.sv[1] >= b.sv[2] - 1e-12 && b.sv[2] >= -1e-12, mk, || format!("{:?}", b.sv));
+        // with or without weights: each squared singular value is the sum of the squared weighted projections
+        // of the points onto its axis, taken about the reported centre
+        {
+            let mut worst = 0.0f64;
+            for i in 0..3 {
+                let proj: f64 = pts.iter().zip(ws.iter()).map(|(p, wi)| (wi * (p - b.center).dot(&b.basis[i])).powi(2)).sum();
+                worst = worst.max((b.sv[i].powi(2) - proj).abs() / (1.0 + b.sv[0].powi(2)));
+            }
+            l.check("squared singular values equal the summed squared weighted projections about the centre", "", worst <= 1e-9, mk, || format!("w {:?}: singular values {:?}, worst relative error {:e}", w, b.sv, worst));
+        }
         let unit = ws.iter().all(|x| *x == 1.0);
         if unit {
             let mut worst = 0.0f64;
@@ -361,6 +371,12 @@ fn judge_plane(case: &Case, l: &mut Local) {
     let sp = SurfacePoint3::new_normalize(q, Vector3::new(0.3, 0.2, 1.0));
     if let Some(t) = pl.intersection_distance(&sp) {
         l.check("intersection distance lands on the plane", "", pl.signed_distance_to_point(&sp.at_distance(t)).abs() <= 1e-9 * (1.0 + t.abs()), mk, || format!("t {}", t));
+    }
+    // a moved plane contains the moved defining points, whatever the mix of rotation and translation
+    for iso in [Iso3::new(Vector3::new(3.0, -2.0, 5.0), Vector3::new(0.4, -1.1, 0.7)), Iso3::new(Vector3::new(0.0, 0.0, 4.0), Vector3::new(1.2, 0.0, 0.0)), Iso3::new(Vector3::new(-7.0, 1.0, 0.5), Vector3::zeros())] {
+        let pm = pl.transform_by(&iso);
+        let worst = [a, b, c].iter().map(|p| pm.signed_distance_to_point(&(iso * p)).abs()).fold(0.0, f64::max);
+        l.check("a moved plane contains its moved defining points", "", worst <= 1e-9 && (pm.normal.into_inner() - iso.rotation * pl.normal.into_inner()).norm() <= 1e-12, mk, || format!("{:e}", worst));
     }
     // the same triangle a thousand and a million times smaller, and much larger, at an offset: the plane has
     // the same normal and still contains its three points
